@@ -98,6 +98,7 @@ Print Assumptions C05_send_loop_fuel.
 Theorem C05_snapshot_transfer_completes : forall e x sl sf b,
   1 <= chunk (cf e) -> pid (sr (nd sl)) = 0 -> asorted (trans (sr (nd sl))) ->
   stored (sr (nd sl)) = Some b -> aget x (trans (sr (nd sl))) = None ->
+  snap_ahead b (applied (nd sf)) = true ->
   let n := N.to_nat (nchunks (blob_len b) (chunk (cf e))) in
   let pieces := snd (sender_run (Datatypes.S n) e x sl) in
   let r := recv_run pieces sf in
